@@ -173,7 +173,7 @@ def V1(pt, clause, expected, observed):
 
 # ------------------------------------------------------------------ part 2
 def alphabet():
-    ops = [["read", 0], ["read", 1], ["read", 2], ["read", 3], ["read_path", 0], ["read_opts", 1], ["read_write", 0], ["read_write", 1]]
+    ops = [["read", 0], ["read", 1], ["read", 2], ["read", 3], ["read_path", 0], ["read_opts", 1], ["read_shared_opts", 0], ["read_write", 0], ["read_write", 1]]
     for which in ("first", "last"):
         ops += [["mut_header", which], ["mut_default", which], ["rename_curve", which], ["edit_data", which],
                 ["append_curve", which], ["delete_curve", which], ["mut_sections", which]]
@@ -201,6 +201,15 @@ _PD = T_LATIN.replace("Bohrung", "Dritte Bohrung").replace("STOP.M 2.0", "STOP.M
 assert "DLM. COMMA" in _PC and "1.0,10.5" in _PC and "1,0 10,5" in _PD
 PURE_TEXTS = [_PA, _PB, _PC, _PD]
 WRITE_CFGS = [{}, {"version": 1.2, "wrap": True}, {"fmt": "%.2f", "mnemonics_header": True}]
+# option OBJECTS that the caller keeps and passes to several reads: a read must not consume or edit them
+SHARED_OPTS = {"dtypes": {"DEPT": float, "TEMP": str, "COND.": float}, "read_policy": ["comma-decimal-mark", "run-on(-)"],
+               "null_policy": ["NULL", "(null)", "9999.25", -999.25], "ignore_comments": ["#"]}
+
+
+def _shared_kwargs():
+    return {"dtypes": SHARED_OPTS["dtypes"], "read_policy": SHARED_OPTS["read_policy"], "null_policy": SHARED_OPTS["null_policy"],
+            "ignore_comments": tuple(SHARED_OPTS["ignore_comments"])}
+
 
 
 def apply_op(results, op, step, tag=None):
@@ -221,6 +230,9 @@ def apply_op(results, op, step, tag=None):
         with open(path, "w", encoding="utf-8") as f:
             f.write(PURE_TEXTS[op[1]])
         results.append(lasio.read(path, encoding="utf-8"))
+        return True
+    if kind == "read_shared_opts":
+        results.append(lasio.read(PURE_TEXTS[op[1]], **_shared_kwargs()))
         return True
     if kind == "read_opts":
         results.append(lasio.read(PURE_TEXTS[op[1]], mnemonic_case="lower", null_policy="all", engine="normal",
@@ -294,7 +306,7 @@ def apply_op(results, op, step, tag=None):
     return True
 
 
-CREATING = ("read", "read_path", "read_opts", "read_write", "new_mutate", "new_write", "pickle", "deepcopy")
+CREATING = ("read", "read_path", "read_opts", "read_shared_opts", "read_write", "new_mutate", "new_write", "pickle", "deepcopy")
 
 
 def _rsnap(las):
@@ -312,7 +324,7 @@ def module_snapshot():
     return parts
 
 
-OBS_PARTS = ["mod", "read0", "read1", "read2", "read3", "new", "write0"]
+OBS_PARTS = ["mod", "opts", "read0", "read1", "read2", "read3", "read_shared", "new", "write0"]
 
 
 def observe(only=None):
@@ -323,6 +335,14 @@ def observe(only=None):
     if only in (None, "mod"):
         for k, v in module_snapshot():
             obs["mod:" + k] = v
+    if only in (None, "opts"):
+        obs["opts"] = repr(sorted((k, repr(v)) for k, v in SHARED_OPTS.items()))
+    if only in (None, "read_shared"):
+        try:
+            obs["read_shared"] = repr(canon.las_tag(lasio.read(PURE_TEXTS[0], **_shared_kwargs()), "strict"))
+        except Exception as e:
+            obs["read_shared"] = "raises %s: %s" % (type(e).__name__, str(e)[:200])
+        obs["opts_after_read"] = repr(sorted((k, repr(v)) for k, v in SHARED_OPTS.items()))
     for i, t in enumerate(PURE_TEXTS):
         if only not in (None, "read%d" % i):
             continue
@@ -472,7 +492,7 @@ def _process_queue(queue, depth, ref):
         if oc == "ok":
             out["states"].add(vis)
             out["max_depth"] = max(out["max_depth"], len(hist))
-            if any(o[0] not in ("read", "read_path", "read_opts") for o in hist):
+            if any(o[0] not in ("read", "read_path", "read_opts", "read_shared_opts") for o in hist):
                 out["nontriv"] += 1
             if len(hist) < depth:
                 for op in alpha:
